@@ -339,6 +339,8 @@ def run_shard(tier: str, seed: int, shard):
                   run_batch, acc, real, ref, group, aggr_name, pair)
     # total weights inside (0, atol]: the result is still the weighted average / sum, not NaN
     tiny_atoms = [(n, d) for n in GROUPS[group][:2] for d in (TINY, TINY / 2, 1e-200)]  # (1e-200: products of two degrees underflow)
+    if group == "ts":  # a subnormal total weight (its reciprocal overflows; Tsukamoto inverses are not defined that low)
+        tiny_atoms += [(n, 2.0**-1030) for n in GROUPS[group][:2]]
     for L in (1, 2):
         for seq in itertools.product(tiny_atoms, repeat=L):
             acc.guard({"group": group, "aggregation": aggr_name, "sequence": [list(s) for s in seq]},
@@ -359,7 +361,7 @@ def summarize(tier: str, seed: int, merged: dict) -> dict:
         "rule": (
             f"term groups {GROUPS} x aggregation in {{none}} U 9 S-norms x all activation sequences of length 0..L "
             f"(L={{g: lengths(tier, g) for g in GROUPS}}) over group x degrees {DEGREES} x 2 defuzzifiers x 3 types; batch "
-            "degrees for all term pairs; total weights 2^-12 / 2^-13; for all sequences of length <= 2 the kind given as enum member / through "
+            "degrees for all term pairs; total weights 2^-12 / 2^-13 / 1e-200 (Takagi-Sugeno also the subnormal 2^-1030); for all sequences of length <= 2 the kind given as enum member / through "
             "configure(), the activations as an iterator / as a caller-owned list edited afterwards; one long-lived Automatic instance per class; "
             "non-trivial = at least two positive activations and a defined result"
         ).replace("{g: lengths(tier, g) for g in GROUPS}", str({g: lengths(tier, g) for g in GROUPS})),
